@@ -792,6 +792,7 @@ fn escape_string(s: &str) -> String {
     for c in s.chars() {
         let ec = match c {
             '\\' => Some("\\\\"),
+            '"' => Some("\\\""),
             '\x08' => Some("\\b"),
             '\x0c' => Some("\\f"),
             '\n' => Some("\\n"),
@@ -802,6 +803,9 @@ fn escape_string(s: &str) -> String {
         match ec {
             Some(ec) => {
                 res.write_str(ec).ok();
+            }
+            None if c.is_control() => {
+                write!(res, "\\u{:04x}", c as u32).ok();
             }
             None => {
                 res.write_char(c).ok();
